@@ -273,7 +273,7 @@ func c13Dates(r *h.Result) error {
 }
 
 func c13(r *h.Result, rng *h.Rng, tier string, replay string) error {
-	r.Rule = "confined: a fixed list of 24 LogQL queries covering every stage kind + generated log queries, label-values/series planners, Prometheus matchers with/without hints, 7 TraceQL scripts, 3 Pyroscope selectors × 4 planners; × single-node/cluster × windows (random, and straddling/just after midnight UTC) × 3 process zones; every case is non-trivial (a real statement with ≥1 base-table scan); distinct by (planner, query, window, zone). dates: exhaustive. model-*: grammar-directed requests of the modelled fragments (C08's metric-query generator, C11's TraceQL generator incl. chains of up to 5 selectors and {}, C07's log-selector generator for series/values, Prometheus matchers × every hint function × steps below/equal/above the range, Pyroscope selectors with pseudo-labels) × windows (random, straddling/just after midnight UTC, bucket-aligned) × single-node/cluster; distinct by (request, context). model-tempo / http-tempo / judge-tempo: legacy Tempo searches — 0–4 tags over 9 keys × 4 operators × 12 values (quotes, backslashes, NUL, non-ASCII), no tags parameter, a tags string without a tag; limits incl. 0 and negative, duration bounds incl. the truncating ones; windows inside a day, across midnight, of several days, sub-second, ending/starting exactly at midnight, with absent/negative ends (text only) — × 12 kinds of version state (no row, value 0, before / at / one second after / inside / after the window, unparsable, signed, overflowing the int64 product, duplicate rows, other names) × table list × single-node/cluster × 3 database names; judge-tempo databases: 12–16 spans per case at the positions named in the stream description, index rows per tag (85 % matching) with the timestamp columns zero for spans older than the recorded tempo_v2 update; non-trivial = a span that carries all tags lies on a boundary day outside the window. model-tempo-legacy: trace by id × start/end given or 0 × 5 ids, tag names, tag values × 10 tag spellings. model-prof-plans: 0–3 selectors (pseudo-labels 40 %) × 4 operators × 13 values (incl. \"\" and .*: key/value selectors that accept the empty value and are asked inverted — see the model-prof-plans:fp:* buckets) × 3 type ids × 9 planner shapes × windows × layouts × 3 zones. model-tail: 5 (15) concurrent tails × 3 (5) ticks × 5 result shapes"
+	r.Rule = "confined: a fixed list of 24 LogQL queries covering every stage kind + generated log queries, label-values/series planners, Prometheus matchers with/without hints, 7 TraceQL scripts, 3 Pyroscope selectors × 4 planners; × single-node/cluster × windows (random, and straddling/just after midnight UTC) × 3 process zones; every case is non-trivial (a real statement with ≥1 base-table scan); distinct by (planner, query, window, zone). dates: exhaustive. model-*: grammar-directed requests of the modelled fragments (C08's metric-query generator, C11's TraceQL generator incl. chains of up to 5 selectors and {}, C07's log-selector generator for series/values, Prometheus matchers × every hint function × steps below/equal/above the range, Pyroscope selectors with pseudo-labels) × windows (random, straddling/just after midnight UTC, bucket-aligned) × single-node/cluster; distinct by (request, context). model-tempo / http-tempo / judge-tempo: legacy Tempo searches — 0–4 tags over 9 keys × 4 operators × 12 values (quotes, backslashes, NUL, non-ASCII), no tags parameter, a tags string without a tag; limits incl. 0 and negative, duration bounds incl. the truncating ones; windows inside a day, across midnight, of several days, sub-second, ending/starting exactly at midnight, with absent/negative ends (text only) — × 12 kinds of version state (no row, value 0, before / at / one second after / inside / after the window, unparsable, signed, overflowing the int64 product, duplicate rows, other names) × table list × single-node/cluster × 3 database names; judge-tempo databases: 12–16 spans per case at the positions named in the stream description, index rows per tag (85 % matching) with the timestamp columns zero for spans older than the recorded tempo_v2 update; non-trivial = a span that carries all tags lies on a boundary day outside the window. model-tempo-legacy: trace by id × start/end given or 0 × 5 ids, tag names, tag values × 10 tag spellings. model-prof-plans: 0–3 selectors (pseudo-labels 40 %) × 4 operators × 13 values (incl. \"\" and .*: key/value selectors that accept the empty value and are asked inverted — see the model-prof-plans:fp:* buckets) × 3 type ids × 9 planner shapes × windows × layouts × 3 zones. model-tail: 5 (15) concurrent tails × 3 (5) ticks × 5 result shapes, single-node and clustered. model-promlabels: 0–3 match[] selectors of 1–2 matchers (4 operators × 5 names × 13 values incl. \"\" and .*: matchers that accept the empty value are asked inverted) × 3 endpoints × windows (ms, across midnight, around the 30-minute date rule) × single-node/cluster. signal-plans: the LogQL list + generated log queries with Type 0 (what prepareOutput / Tail build), series / values with Type 1, Prometheus raw + rollup with Type 2. signal-http: 11 routes × generated windows"
 	rounds := 1
 	if tier != "quick" {
 		rounds = 12
@@ -291,5 +291,9 @@ func c13(r *h.Result, rng *h.Rng, tier string, replay string) error {
 	if tier != "quick" {
 		n = 3000
 	}
-	return c13HTTP(r, rng.Fork(), n)
+	if err := c13HTTP(r, rng.Fork(), n); err != nil {
+		return err
+	}
+	// streams added by the c13w extension run last (own forks): the signal half, the Prometheus metadata statements
+	return c13Signal(r, rng.Fork(), tier)
 }
